@@ -1418,7 +1418,7 @@ func main() {
 			only = *rp.Replay.Case.Input.Scenario
 		}
 	}
-	w, err := newCWriter(*outdir, "From VLib Require Import CaseLib.\nFrom C04 Require Import Model CaseDefs.\nOpen Scope N_scope.")
+	w, err := newCWriter(*outdir, "From Coq Require Import ZArith.\nFrom VLib Require Import CaseLib.\nFrom C04 Require Import Model CaseDefs.\nOpen Scope N_scope.")
 	if err != nil {
 		panic(err)
 	}
